@@ -1,19 +1,18 @@
 (* C18 — I/O faults are reported, never swallowed.
    Readers: when the scanner stops on an error (read failure at any offset, or a line too long to buffer) the
-   reader model returns an error, whatever tokens were delivered before (SubRip, WebVTT and SSA/ASS models).  Writers: a writer is the list of Write calls it issues,
-   each checked; a destination failing before the end of the document makes the writer fail, and without a
-   fault every byte is handed over (SubRip and WebVTT: one Write; SSA/ASS: up to three Writes - script info, styles,
-   events - modelled by write_ssa_chunks). *)
-From Coq Require Import List NArith Bool Arith.
-From Astisub Require Import Kit.Base Kit.Scan Kit.IOW Model.Srt Model.Vtt Proofs.SrtIOProofs Proofs.VttIOProofs.
-From Astisub Require Import Model.Ssa Proofs.SsaIOProofs.
-   fault every byte is handed over.
+   reader model returns an error, whatever tokens were delivered before (SubRip, WebVTT and SSA/ASS models).
+   Writers: a writer is the list of Write calls it issues, each checked; a destination failing before the end of the
+   document makes the writer fail, and without a fault every byte is handed over (SubRip and WebVTT: one Write; SSA/ASS:
+   up to three Writes - script info, styles, events - modelled by write_ssa_chunks).
    EBU STL: a stream that fails (an error other than end-of-file) after delivering any prefix, under any schedule,
    makes ReadFromSTL return an error - also when the failure falls exactly on a block boundary, because the reader
    always asks for the next block and only io.EOF ends its loop (C18_read_stl_fault); an end-of-file inside a block is
    an error (C18_read_stl_partial_block); an end-of-file at a block boundary is a shorter well-formed file (C05_read_spec
    on the complete blocks).  WriteToSTL issues one Write for the GSI block and one per TTI block, each checked
    (C18_write_stl_fault / _complete). *)
+From Coq Require Import List NArith Bool Arith.
+From Astisub Require Import Kit.Base Kit.Scan Kit.IOW Model.Srt Model.Vtt Proofs.SrtIOProofs Proofs.VttIOProofs.
+From Astisub Require Import Model.Ssa Proofs.SsaIOProofs.
 From Astisub Require Import Model.Stl Model.StlIO Proofs.StlIOProofs.
 Import ListNotations.
 
